@@ -571,7 +571,7 @@ fn c09(r: &Runner) {
         });
     }
     // ---- parsing
-    let chars: Vec<char> = "0123456789abcdefghijklmnopqrstuvwxyzABCDEFGHIJKLMNOPQRSTUVWXYZ_+-/,=\r\n .xé€😀\u{131}\u{141}\u{161}\u{15f}\u{10d}\u{13d}\u{661}\u{12b}\u{12f}\u{1f431}\u{ff11}".chars().collect();
+    let chars: Vec<char> = "0123456789abcdefghijklmnopqrstuvwxyzABCDEFGHIJKLMNOPQRSTUVWXYZ_+-/,=\r\n .xé€😀\u{131}\u{141}\u{161}\u{15f}\u{10d}\u{13d}\u{661}\u{12b}\u{12f}\u{1f431}\u{ff11}\u{212a}\u{212b}\u{17f}\u{130}\u{b5}\u{1e9e}\u{ff21}\u{ff41}\u{2160}\u{2170}\u{660}\u{966}\u{b2}\u{2460}\u{1d7ce}\u{3c3}\u{3a3}".chars().collect();
     let mut strs: Vec<String> = vec![String::new()];
     for &a in &chars {
         strs.push(a.to_string());
@@ -683,7 +683,9 @@ fn c09(r: &Runner) {
         }
         let m = pow2(bits);
         let vals: Vec<BigUint> = vec![BigUint::from(0u32), &m - 1u32, (&m - 1u32) / 3u32, big(&golden(nlimbs(bits)).iter().enumerate().map(|(i, x)| if i == nlimbs(bits) - 1 { x & mask(bits) } else { *x }).collect::<Vec<u64>>()) >> 3usize];
-        let subs: Vec<char> = "+-_ 0fFgGzZ/=.\u{e9}".chars().collect();
+        // incl. characters that Unicode case mapping or digit classification would turn into an ASCII letter / digit:
+        // KELVIN SIGN (lower-cases to k), LONG S (upper-cases to S), fullwidth A / 1, ARABIC-INDIC and mathematical digits
+        let subs: Vec<char> = "+-_ 0fFgGzZ/=.\u{e9}\u{212a}\u{17f}\u{ff21}\u{ff11}\u{661}\u{1d7cf}".chars().collect();
         let radices = [2u32, 8, 10, 16, 36];
         r.universe(&format!("single-character substitutions at every position of full-width and minimal texts ({} values x {} radices x {} characters)", vals.len(), radices.len(), subs.len()), bits, vals.len() * radices.len(), |i, l| {
             let v = &vals[i / radices.len()];
